@@ -6,6 +6,8 @@ AllOps == {"split_obs", "split_channel", "split_time", "split_merge", "subset_ob
            "subset_time", "sort_by", "merge", "odd_even", "nested_odd_even", "bin_time",
            "time_as_observations", "time_as_channels", "df", "copy", "saveload", "dict",
            "average_by", "tensor", "drop"}
+\* C11 does not quantify over save / load (that is C16, which uses AllOps): everything but "saveload"
+C11Ops == AllOps \ {"saveload"}
 \* the >= 17 row configuration for the stability clause: only the row operations
 RowOps == {"sort_by", "split_obs", "split_merge", "subset_obs", "merge", "odd_even", "copy",
            "time_as_observations"}
